@@ -86,6 +86,14 @@ pub trait World {
     fn repoll_op(&self, _f: u32) -> Option<String> {
         None
     }
+    /// Number of futures that have been polled and have not completed (C17's unit of measure).
+    fn pending(&self) -> usize {
+        0
+    }
+    /// Further contention (guards alive, ...) for the beam search's ranking.
+    fn score(&self) -> usize {
+        0
+    }
 }
 
 pub struct Runner {
@@ -114,6 +122,7 @@ impl Runner {
             let bound: usize = toks.get(1).and_then(|x| x.parse().ok()).unwrap_or(64);
             let mut polls = 0usize;
             let mut all_wakes = Vec::new();
+            let pending0 = self.world.pending();
             while polls < bound {
                 let Some(&f) = self.woken.iter().next() else { break };
                 match self.world.repoll_op(f) {
@@ -134,7 +143,12 @@ impl Runner {
             }
             out = format!("settled {}", polls);
             let obs = format!("{} | w={} | {}", out, fmt_list(&all_wakes), self.world.snapshot());
-            let mons = self.world.monitors(&self.woken);
+            let mut mons = self.world.monitors(&self.woken);
+            // C17: nothing is released, started or cancelled during a settle, so the woken futures
+            // must come to rest within a small multiple of the number of pending futures
+            if polls > 5 * pending0 || (polls >= bound && !self.woken.is_empty() && bound > 5 * pending0) {
+                mons.push(format!("C17:settle-needed-{}-polls-for-{}-pending-futures", polls, pending0));
+            }
             return (obs, mons);
         }
         self.world.note_quiescent(self.woken.is_empty());
@@ -247,10 +261,67 @@ pub fn dfs(
     visited.insert(r.key(), depth);
     let mut prefix: Vec<String> = start_prefix.to_vec();
     drop(r);
-    dfs_rec(new_line, mk, depth, &mut prefix, &mut visited, out, stats);
+    dfs_rec(new_line, mk, depth, &mut prefix, &mut visited, out, stats, &mut None);
     stats.distinct_states += visited.len() as u64;
 }
 
+/// Beam search: an exhaustive DFS of depth `depth0` from the initial state, then `rounds` times:
+/// take the `width` most contended states seen so far (pending futures, guards, outstanding
+/// wake-ups) and run an exhaustive DFS of depth `depth_r` from each.  Reaches the deep, crowded
+/// states a plain DFS cannot afford.  Output: one trie per DFS, each starting with the `new` line
+/// and its prefix.
+#[allow(clippy::too_many_arguments)]
+pub fn beam(
+    new_line: &str,
+    mk: Maker,
+    depth0: usize,
+    width: usize,
+    rounds: usize,
+    depth_r: usize,
+    out: &mut dyn Write,
+    stats: &mut Stats,
+) {
+    let mut visited: HashMap<String, usize> = HashMap::new();
+    let mut frontier: Option<Vec<(usize, Vec<String>)>> = Some(Vec::new());
+    let mut starts: Vec<Vec<String>> = vec![vec![]];
+    let mut used: std::collections::HashSet<Vec<String>> = std::collections::HashSet::new();
+    for round in 0..=rounds {
+        let depth = if round == 0 { depth0 } else { depth_r };
+        for start in &starts {
+            let mut r = Runner::new(new_line, mk).expect("bad new line");
+            let snap = r.world.snapshot();
+            emit(out, new_line, &format!("ok | w= | {}", snap), &[]);
+            for op in start {
+                let (obs, mons) = r.exec(op);
+                emit(out, op, &obs, &mons);
+            }
+            // states are re-explored from a beam start even if seen before with less depth left
+            visited.insert(r.key(), depth);
+            drop(r);
+            let mut prefix = start.clone();
+            dfs_rec(new_line, mk, depth, &mut prefix, &mut visited, out, stats, &mut frontier);
+        }
+        if round == rounds {
+            break;
+        }
+        let fr = frontier.as_mut().unwrap();
+        // most contended first; among equals the shorter prefix
+        fr.sort_by(|a, b| b.0.cmp(&a.0).then(a.1.len().cmp(&b.1.len())));
+        starts = Vec::new();
+        for (_, p) in fr.iter() {
+            if starts.len() >= width {
+                break;
+            }
+            if used.insert(p.clone()) {
+                starts.push(p.clone());
+            }
+        }
+        fr.clear();
+    }
+    stats.distinct_states += visited.len() as u64;
+}
+
+#[allow(clippy::too_many_arguments)]
 fn dfs_rec(
     new_line: &str,
     mk: Maker,
@@ -259,6 +330,7 @@ fn dfs_rec(
     visited: &mut HashMap<String, usize>,
     out: &mut dyn Write,
     stats: &mut Stats,
+    frontier: &mut Option<Vec<(usize, Vec<String>)>>,
 ) {
     if remaining == 0 {
         stats.histories += 1;
@@ -275,16 +347,38 @@ fn dfs_rec(
         writeln!(out, "(").unwrap();
         emit(out, &op, &obs, &mons);
         let key = r.key();
-        drop(r);
         let rem = remaining - 1;
+        let fresh = !visited.contains_key(&key);
         let go = match visited.get(&key) {
             Some(&seen) => seen < rem,
             None => true,
         };
+        if fresh {
+            if let Some(fr) = frontier.as_mut() {
+                // contention score of a state first seen here: pending futures count most
+                let score = 4 * r.world.pending() + r.world.score() + r.woken.len();
+                let mut p = prefix.clone();
+                p.push(op.clone());
+                fr.push((score, p));
+            }
+        }
+        if go && !r.woken.is_empty() {
+            // probe (C17 and the liveness monitors): run the woken futures of this new state to
+            // quiescence, as a leaf of the trie
+            let (sobs, smons) = r.exec("settle 64");
+            stats.record("settle 64", &sobs);
+            if !smons.is_empty() {
+                stats.monitor_hits += 1;
+            }
+            writeln!(out, "(").unwrap();
+            emit(out, "settle 64", &sobs, &smons);
+            writeln!(out, ")").unwrap();
+        }
+        drop(r);
         if go && rem > 0 {
             visited.insert(key, rem);
             prefix.push(op);
-            dfs_rec(new_line, mk, rem, prefix, visited, out, stats);
+            dfs_rec(new_line, mk, rem, prefix, visited, out, stats, frontier);
             prefix.pop();
         } else {
             stats.histories += 1;
